@@ -18,18 +18,15 @@ structure WF (s : KeltnerChannel F) : Prop where
   ema_period : s.ema.period = s.period
   atr_period : s.atr.ema.period = s.period
 
-/-- `new` as the code is today (`AverageTrueRange::new(period)?` first, then
+/-- `new` rejects exactly period 0 and never panics (`AverageTrueRange::new(period)?` first, then
     `ExponentialMovingAverage::new(period)?`; both fail in the same way on the same `period`, so
     the order is not observable). -/
 theorem new_eq (p : Nat) (m : F) :
     (new p m : Res (KeltnerChannel F)) =
-      if p = 0 then .err .InvalidParameter
-      else if p + 1 ≤ usizeMax then .ok (fresh p m) else .panic := by
+      if p = 0 then .err .InvalidParameter else .ok (fresh p m) := by
   unfold new
   rw [AverageTrueRange.new_eq, ExponentialMovingAverage.new_eq]
-  by_cases h0 : p = 0
-  · simp [h0, bind, Res.bind]
-  · by_cases h1 : p + 1 ≤ usizeMax <;> simp [h0, h1, bind, Res.bind, fresh]
+  by_cases h0 : p = 0 <;> simp [h0, bind, Res.bind, fresh]
 
 theorem fresh_wf (p : Nat) (m : F) (hp : 0 < p) : WF (fresh p m : KeltnerChannel F) :=
   ⟨AverageTrueRange.fresh_wf p hp, ExponentialMovingAverage.fresh_wf p hp, rfl, rfl⟩
@@ -124,6 +121,6 @@ theorem display_eq (fmt : F → String) (s : KeltnerChannel F) :
 theorem default_eq : (default_ : Option (KeltnerChannel F)) = some (fresh 10 (Scalar.lit 2 0)) := by
   unfold default_
   rw [new_eq]
-  simp [unwrap, usizeMax]
+  simp [unwrap]
 
 end TaRs.Gen.KeltnerChannel
